@@ -154,18 +154,18 @@ def injections(rules):
             x = cp(); x[i]['cons'].append([K.CONS(pats[0], K.P('zz'))]); yield 'option-unknown-pattern', (i, 'newset'), x
             x = cp(); x[i]['cons'].append([K.CONS(pats[0], K.P('_'))]); yield 'temporary-as-option', (i, 'newset'), x
     # cycles of length 2 and 3 through the first name item
+    first3 = True
     for a in range(len(ids)):
-        for b in range(len(ids)):
-            if a == b:
-                continue
+        for b in range(a + 1, len(ids)):
             ia = next(i for i, r in enumerate(rules) if r['id'] == ids[a])
             ib = next(i for i, r in enumerate(rules) if r['id'] == ids[b])
             x = cp(); x[ia]['name'][0] = K.R(ids[b]); x[ib]['name'][-1] = K.R(ids[a]); yield 'reference-cycle-2', (ia, ib), x
             x = cp(); x[ia]['sign'] = x[ia]['sign'] + [ids[b]]; x[ib]['sign'] = x[ib]['sign'] + [ids[a]]
             yield 'signing-cycle-2', (ia, ib), x
-            for c in range(len(ids)):
-                if c in (a, b) or not (a < b and a < c):
-                    continue
+            for c in range(b + 1, len(ids)):
+                if not first3:
+                    break
+                first3 = False
                 ic = next(i for i, r in enumerate(rules) if r['id'] == ids[c])
                 x = cp(); x[ia]['name'][0] = K.R(ids[b]); x[ib]['name'][0] = K.R(ids[c]); x[ic]['name'][0] = K.R(ids[a])
                 yield 'reference-cycle-3', (ia, ib, ic), x
@@ -178,7 +178,7 @@ def injections(rules):
 # ------------------------------------------------------------------ (ii) single-field corruptions of a binary model
 
 def corruptions(wire):
-    """Yields (kind, position, corrupted bytes); kind carries '@root' / '@rootchild' when the source node of
+    """Yields (kind, position, (corrupted bytes, corrupted model as JSON)); kind carries '@root' / '@rootchild' when the source node of
     the touched link is the root (the class the loader treats differently)."""
     from ndn.app_support.light_versec import binary as bny
     base = bny.LvsModel.parse(wire)
@@ -195,17 +195,34 @@ def corruptions(wire):
         return out
 
     def mut(f):
+        """corrupted bytes + the corrupted model as JSON. The JSON is taken from the mutated object; every
+        16th one is cross-checked against a fresh parse of the corrupted bytes (what the loader sees)."""
         m = bny.LvsModel.parse(wire)
         f(m)
-        return bytes(m.encode())
+        cw = bytes(m.encode())
+        js = K.dump_model(m)
+        mut.n += 1
+        if mut.n % 16 == 0 and K.dump_model(bny.LvsModel.parse(cw)) != js:
+            raise tlc.MachineryError('corrupted model does not survive encode/parse unchanged')
+        return cw, js
+    mut.n = 0
 
     def setattr_(path, val):
-        def f(m):
-            o = m
-            for p in path[:-1]:
-                o = getattr(o, p) if isinstance(p, str) else o[p]
-            setattr(o, path[-1], val)
-        return mut(f)
+        """single attribute: mutate the shared parsed model in place, encode, restore (no re-parse)."""
+        o = base
+        for p in path[:-1]:
+            o = getattr(o, p) if isinstance(p, str) else o[p]
+        old = getattr(o, path[-1])
+        setattr(o, path[-1], val)
+        try:
+            cw = bytes(base.encode())
+            js = K.dump_model(base)
+        finally:
+            setattr(o, path[-1], old)
+        mut.n += 1
+        if mut.n % 16 == 0 and K.dump_model(bny.LvsModel.parse(cw)) != js:
+            raise tlc.MachineryError('corrupted model does not survive encode/parse unchanged')
+        return cw, js
     for name, v in (('missing', None), ('newer', bny.VERSION + 1), ('older', bny.MIN_SUPPORTED_VERSION - 1), ('zero', 0)):
         yield 'version-' + name, (), setattr_(['version'], v)
     for i in range(n):
@@ -300,11 +317,9 @@ def run(ctx):
 
 def stage_a(ctx, procs):
     B = tlc.BUILD
-    mn, ml = ctx.pick((3, 3), (4, 3))
+    mn, ml = ctx.pick((3, 2), (4, 3))
     safe = c11.walk_cfg(os.path.join(B, 'LvsTree_walk_c13_%s.cfg' % ctx.tier), mn, ml,
-                        invariants=['StepsBounded', 'NoStall', 'StackShape'])
-    live = c11.walk_cfg(os.path.join(B, 'LvsTree_walk_c13_live.cfg'), 3, ctx.pick(2, 3), count=False,
-                        properties=['Terminates'])
+                        invariants=['StepsBounded', 'NoStall', 'StackShape'], properties=['Terminates'])
     cor = c11.walk_cfg(os.path.join(B, 'LvsTree_walk_c13_cor.cfg'), ctx.pick(2, 3), 2, corrupt='parent', count=False,
                        properties=['TerminatesIfSane'])
     w1 = c11.walk_cfg(os.path.join(B, 'LvsTree_walk_c13_w1.cfg'), 2, 1, corrupt='parent', count=False,
@@ -314,13 +329,12 @@ def stage_a(ctx, procs):
     w3 = c11.walk_cfg(os.path.join(B, 'LvsTree_walk_c13_w3.cfg'), 2, 1, corrupt='parent', count=False,
                       properties=['W_SaneIsEnough'])
     res = K.par([lambda: K.run_tlc('LvsTree', safe, coverage=True, workers=ctx.pick(4, 16)),
-                 lambda: K.run_tlc('LvsTree', live, workers=ctx.pick(2, 8)),
                  lambda: K.run_tlc('LvsTree', cor, workers=ctx.pick(2, 8)),
                  lambda: K.run_tlc('LvsTree', w1, workers=1, heavy=False),
                  lambda: K.run_tlc('LvsTree', w2, workers=1, heavy=False),
                  lambda: K.run_tlc('LvsTree', w3, workers=1, heavy=False)])
-    for name, r in zip(('step bound + no stall, sane trees MaxNodes=%d MaxLen=%d' % (mn, ml),
-                        'termination (liveness), sane trees', 'termination if Sane, parent-corrupted trees'), res[:3]):
+    for name, r in zip(('termination (<>Done), step bound, no stall on sane trees MaxNodes=%d MaxLen=%d' % (mn, ml),
+                        'termination if Sane and the root has no parent, parent-corrupted trees'), res[:2]):
         ctx.add_tlc('LvsTree walk machine: ' + name, r)
         if r.violated:
             ctx.violation('C13/spec/LvsTree/%s' % r.violated, 'TLC: %s violated by the walk machine (%s)' % (r.violated, name),
@@ -328,16 +342,16 @@ def stage_a(ctx, procs):
     for a in c11.WALK_ACTS:
         if res[0].ok and res[0].coverage.get(a, (0, 0))[0] == 0:
             raise tlc.MachineryError('vacuous: action %s of the walk machine never taken' % a)
-    if not res[3].violated:
+    if not res[2].violated:
         raise tlc.MachineryError('witness: no parent-corrupted tree makes the machine loop (termination check vacuous)')
-    if not res[4].violated:
+    if not res[3].violated:
         raise tlc.MachineryError('witness: leaving the parent links of the root children unchecked is harmless?')
-    if res[5].violated != 'W_SaneIsEnough':
+    if res[4].violated != 'W_SaneIsEnough':
         raise tlc.MachineryError('witness: the documented rules alone seem to guarantee termination (root with a parent)')
-    ctx.note('A: machine terminates on all sane trees (%d states), within StepBudget (%d states); on %d states of '
+    ctx.note('A: machine terminates on all sane trees within StepBudget and without stalling (%d states); on %d states of '
              'parent-corrupted trees it terminates whenever Sane and the root has no parent; witnesses: an insane tree '
              'loops, so does one that only breaks the parent rule at a child of the root, and so does a sane tree whose '
-             'root names a parent' % (res[1].distinct, res[0].distinct, res[2].distinct))
+             'root names a parent' % (res[0].distinct, res[1].distinct))
 
 
 def names_for(alpha, L, rng, k):
@@ -350,7 +364,10 @@ def names_for(alpha, L, rng, k):
 
 def stage_b(ctx, procs):
     # ---- (1) ill-formed schema family
-    names, items = c11.enum_run(ctx, 'illformed', ctx.pick(12, 1), procs, tag='b')
+    (names, items), (tnames, titems) = K.par([
+        lambda: c11.enum_run(ctx, 'illformed', ctx.pick(19, 1), procs, tag='b'),
+        lambda: c11.enum_run(ctx, 'trees', ctx.pick(5, 1), ctx.pick(2, procs), maxnodes=ctx.pick(3, 4), maxlen=2,
+                             corrupt='parent', tag='t')])
     seen = {}
     for it in items:
         rules, wf, why, noself = to_json(it[2]), it[3], it[4], it[5]
@@ -374,8 +391,6 @@ def stage_b(ctx, procs):
             raise tlc.MachineryError('ill-formed family never exercises %s' % w)
     ctx.note('B: %d enumerated schemas executed on compile_lvs + Checker: %s' % (len(items), seen))
     # ---- (2) small trees and every parent-link corruption
-    tnames, titems = c11.enum_run(ctx, 'trees', ctx.pick(3, 1), procs, maxnodes=ctx.pick(3, 4), maxlen=2,
-                                  corrupt='parent', tag='t')
     nacc = nins = 0
     for it in titems:
         tree, sane, why = it[2], it[3], it[4]
@@ -414,15 +429,16 @@ def real_parent(tree, i):
 
 def stage_c(ctx, procs):
     rng = ctx.rng
-    nschema = ctx.pick(36, 900)
-    ncorrupt = ctx.pick(22, 450)          # schemas whose compiled model is corrupted field by field
+    nschema = ctx.pick(8, 300)            # schemas that get every injection
+    ncorrupt = ctx.pick(10, 150)          # schemas whose compiled model is corrupted field by field
     gen = K.Gen(rng, p_forward=0.12)
     wrecs, srecs, meta = [], [], {}
     sid = 0
     ninj = ncor = nterm = 0
     kinds_seen = {}
     originals = []
-    for s in range(nschema):
+    jobs = []                              # (sid, kind, pos, text, rules)
+    for s in range(max(nschema, ncorrupt)):
         rules = gen.schema()
         text = K.render(rules)
         oc, ck, msg = K.build(text)
@@ -437,20 +453,22 @@ def stage_c(ctx, procs):
             originals.append((rules, text, ck, wire))
         wrecs.append(rec)
         meta[sid] = ('original', (), text, msg)
+        ctx.sample({'kind': 'C-schema', 'text': text, 'outcome': oc}, limit=2)
+        if s >= nschema:
+            continue
         for kind, pos, bad in injections(rules):
             sid += 1
-            btext = K.render(bad)
-            boc, bck, bmsg = K.build(btext)
-            ctx.evaluations += 1
             ninj += 1
             kinds_seen[kind] = kinds_seen.get(kind, 0) + 1
             ctx.nt('Ci%d/%s/%s' % (s, kind, pos))
-            r2 = {'sid': sid, 'kind': 'w', 'rules': bad, 'outcome': boc, 'loadok': bck is not None}
-            if bck is not None:
-                r2['model'] = K.dump_model(bck.model)
-            wrecs.append(r2)
-            meta[sid] = (kind, pos, btext, bmsg)
-        ctx.sample({'kind': 'C-schema', 'text': text, 'outcome': oc}, limit=2)
+            jobs.append((sid, kind, pos, K.render(bad), bad))
+    for (jsid, kind, pos, btext, bad), (boc, bmsg, bmodel, bload) in zip(jobs, K.build_many([j[3] for j in jobs], procs)):
+        ctx.evaluations += 1
+        r2 = {'sid': jsid, 'kind': 'w', 'rules': bad, 'outcome': boc, 'loadok': bload}
+        if bmodel is not None:
+            r2['model'] = bmodel
+        wrecs.append(r2)
+        meta[jsid] = (kind, pos, btext, bmsg)
     # (ii) + (iii)
     for k, (rules, text, ck, wire) in enumerate(originals):
         alpha = K.alphabet(rules, rng)
@@ -465,17 +483,13 @@ def stage_c(ctx, procs):
         if k >= ncorrupt:
             continue
         from ndn.app_support.light_versec import binary as bny
-        for kind, pos, cw in corruptions(wire):
+        for kind, pos, (cw, seen_model) in corruptions(wire):
             sid += 1
             ncor += 1
             kinds_seen[kind] = kinds_seen.get(kind, 0) + 1
             ctx.nt('Cc%d/%s/%s' % (k, kind, pos))
             oc, cck = load_outcome(cw)
             ctx.evaluations += 1
-            try:
-                seen_model = K.dump_model(bny.LvsModel.parse(cw))
-            except Exception as e:  # noqa
-                raise tlc.MachineryError('corrupted model (%s %s) cannot be parsed back: %r' % (kind, pos, e))
             srecs.append({'sid': sid, 'kind': 's', 'model': seen_model, 'outcome': oc})
             meta[sid] = (kind, pos, text, cw.hex())
             if cck is not None:
